@@ -327,6 +327,19 @@ Fixpoint first_diff_nospan (a b : node) {struct a} : option (list nat) :=
 (** ** The printed content re-parses to the same tree (up to what text cannot carry).
     Spans are ignored by [node_eqb_nospan]; parentheses are a property of the text, not of the tree;
     a literal's [raw] spelling may be re-rendered by the printer. *)
+(** CR LF and a lone CR read as LF. *)
+Fixpoint norm_eol (s : string) : string :=
+  match s with
+  | EmptyString => EmptyString
+  | String c rest =>
+      if Ascii.eqb c (Ascii.ascii_of_nat 13)
+      then match rest with
+           | String c2 rest2 => if Ascii.eqb c2 (Ascii.ascii_of_nat 10) then String (Ascii.ascii_of_nat 10) (norm_eol rest2) else String (Ascii.ascii_of_nat 10) (norm_eol rest)
+           | EmptyString => String (Ascii.ascii_of_nat 10) EmptyString
+           end
+      else String c (norm_eol rest)
+  end.
+
 Definition norm_post (n : node) : node :=
   match n with
   | Node (K KParen _ _) [e] => if spine_has_optional e then n else e   (* only such parentheses carry meaning *)
@@ -334,6 +347,9 @@ Definition norm_post (n : node) : node :=
   | Node (K KStr lo hi) (v :: _) => Node (K KStr lo hi) [v]
   | Node (K KNum lo hi) (v :: _) => Node (K KNum lo hi) [v]
   | Node (K KBigInt lo hi) (v :: _) => Node (K KBigInt lo hi) [v]
+  | Node (K KTplElem lo hi) [tail; cooked; Node (Str raw) []] =>
+      (* the raw text of a template: line terminator sequences CR LF and CR are LF (ECMAScript: TRV of a template) *)
+      Node (K KTplElem lo hi) [tail; Node (Str (norm_eol raw)) []]
   | Node (K KTplElem lo hi) [tail; cooked; raw] => Node (K KTplElem lo hi) [tail; raw]
   | Node Obj [Node (Num _) []; Node (Num _) []] => Node Obj [nNum "0"; nNum "0"]  (* a span that is not the node's own *)
   | Node Lst cs => Node Lst (filter (fun x => negb (is_kind KEmptyStmt x)) cs)   (* a stray `;` in a statement list *)
